@@ -1,8 +1,8 @@
 #!/bin/sh
 # Re-runs, for every filed seeded change, the check of the property it targets (current /verif code) and records
-# the result in its meta.json ("own_check"). usage: tools/recheck_seeded.sh [parallelism]
+# the result in its meta.json ("own_check"). usage: [SEEDED_PROP=C10] [SEEDED_GLOB=W1*] tools/recheck_seeded.sh [parallelism]
 P="${1:-4}"
-ls -d /verif/seeded/C??-${SEEDED_GLOB:-?} | xargs -P "$P" -I{} sh -c '
+ls -d /verif/seeded/${SEEDED_PROP:-C??}-${SEEDED_GLOB:-?} | xargs -P "$P" -I{} sh -c '
   d="{}"; b=$(basename "$d"); prop=${b%%-*}
   WT=/tmp/rc-$b-$$
   git -C /repo worktree add --detach "$WT" HEAD -q 2>/dev/null
